@@ -1,5 +1,3 @@
-#[verifier::external_type_specification] #[verifier::external_body] pub struct ExParseFloatError(std::num::ParseFloatError);
-#[verifier::external_type_specification] #[verifier::external_body] pub struct ExParseIntError(std::num::ParseIntError);
 // ---- environment of the conversion built-ins of interpreter/src/functions.rs (properties C13, C16, C14) ----
 /// decimal text std prints for a number (`Display`), and what `str::parse` reads back (ASSUMED: std round-trips, see axiom_num_text)
 pub uninterp spec fn dec_i64(n: int) -> Seq<char>;
